@@ -823,6 +823,20 @@ func (c *EvalCtx) evalCall(e *ECall) Val {
 		}
 		// allocated during the call: at or above the entry frontier and below the current one
 		return boolVal("(and (>= " + v.S + " " + c.old.brk + ") (< " + v.S + " " + nb + "))")
+	case "typeinv":
+		// typeinv(x): the declared invariants (type block, `inv`) of x's type, for x
+		v := c.eval(e.Args[0])
+		tc := c.x.invType(v.T)
+		if tc == nil {
+			c.fail("typeinv: no invariants declared for the type of %s", e.Args[0])
+		}
+		conj := []string{}
+		for _, li := range tc.Invs {
+			d := c.with(map[string]Val{li.Self: v})
+			d.pkg = tc.Pkg
+			conj = append(conj, d.eval(li.C.E).S)
+		}
+		return boolVal(and(conj...))
 	case "allocated":
 		v := c.eval(e.Args[0])
 		b := c.p.brk
